@@ -42,3 +42,23 @@ def gen_ops(rng, tier, ctx=None):
             yield "mpz_invert 0 %s %s" % (hx(u), hx(V))
             a = rng.getrandbits(64 * N); b = rng.getrandbits(64 * N)
             yield "mpz_gcd 0 %s %s" % (hx(a), hx(b))
+
+    # remainder chains built backwards from chosen quotient SIZES: consecutive huge quotients make the half-gcd fail to make
+    # progress, so the sub-quadratic loops are left with very unbalanced a, b (cofactor recovery with a shorter than the cofactor)
+    def rl(n):
+        x = rng.getrandbits(64 * n) | 1 << (64 * n - 1) | 1
+        return x
+    pats = [[145, 120, 3], [100, 200, 1], [60, 60, 60, 60, 60], [2, 330], [330, 2], [170, 1, 170], [40, 1, 1, 1, 300], [250, 90, 5, 5]]
+    if tier != "quick": pats += [[rng.randrange(1, 200) for _ in range(rng.randrange(2, 6))] for _ in range(40)]
+    for pat in pats:
+        for bs in ((80, 200), (5, 30), (T // 2, T // 2 + 3)):
+            lo, hi = rl(bs[0]), rl(bs[1])
+            for qs in pat:
+                lo, hi = hi, rl(qs) * hi + lo
+            r1, r0 = lo, hi
+            yield "mpz_gcdext 0 %s %s" % (hx(r0), hx(r1))
+            yield "mpz_gcdext 0 %s %s" % (hx(-r1), hx(r0))
+            f = rl(2)
+            yield "mpz_gcdext 0 %s %s" % (hx(r0 * f), hx(r1 * f))
+            yield "mpz_gcd 0 %s %s" % (hx(r0), hx(r1))
+            yield "mpz_invert 0 %s %s" % (hx(r1), hx(r0))
